@@ -15,7 +15,7 @@ FORBIDDEN = re.compile(r"\bsorry\b|\badmit\b|^\s*axiom\s|native_decide|bv_decide
 
 ENV = dict(os.environ)
 ENV.setdefault("MIMALLOC_PURGE_DELAY", "-1")
-ENV["ASAN_OPTIONS"] = "detect_leaks=0:abort_on_error=0:exitcode=97:allocator_may_return_null=1"
+ENV["ASAN_OPTIONS"] = "detect_leaks=0:abort_on_error=0:exitcode=97:allocator_may_return_null=1:handle_abort=1"
 ENV["UBSAN_OPTIONS"] = "print_stacktrace=1:halt_on_error=1:exitcode=98"
 
 
